@@ -25,37 +25,67 @@ Print Assumptions C15_fresh_process_behaviour.
 
 (* EDIF reader, "a damaged file makes the reader raise, never return a half-built netlist, never
    loop": on the whole-file model (Fmt/EdifFile.v, from characters: tokenize, read_first, elab_file;
-   tied to sdn.parse on valid and corrupted files by harness/edif_file.py in every run of C05)
-   - for EVERY text, whatever is returned is well formed: references resolve inside the result,
-     every pin on a wire is an existing bit of an existing port, no pin is on two wires, sibling
-     identifiers are distinct case-insensitively, the top instance references a declared cell;
+   tied to sdn.parse on valid and corrupted files by harness/edif_file.py in every run of C05 and on
+   the corrupted texts of every run of C15)
+   - for EVERY text, whatever is returned is fully well formed ([wf_file]): references resolve inside
+     the result, every pin on a wire is an existing bit of an existing port, no pin is on two wires,
+     sibling identifiers are distinct case-insensitively, the top instance references a declared cell,
+     every instance has a reference, every port has at least one pin;
+   - the end of the file is strict: the accepted token streams are exactly one balanced form, so every
+     proper prefix of an accepted stream (a truncated file, in particular one that lacks its last
+     parentheses) and every accepted stream followed by further tokens is refused;
    - the model cannot loop: every function of it is structurally recursive on the token list /
-     the children lists (no fuel), so elab_text is total by construction.
-   What the code does NOT guarantee: an "(instance n)" without viewRef is accepted and left without
-   a reference (open finding C05-K14) - [C15_edif_bare_instance_accepted]; with every instance
-   carrying its viewRef the result is fully well formed - [C15_edif_wf_file]. *)
-Theorem C15_edif_wf_or_error : forall (text : str) (n : EdifFile.nvfile), EdifFile.elab_text text = EdifFile.Ok n -> EdifFileSpec.wf_core n.
-Proof. exact EdifFileWf.elab_text_wf_core. Qed.
+     the children lists (no fuel), so elab_text is total by construction. *)
+Theorem C15_edif_wf_or_error : forall (text : str) (n : EdifFile.nvfile), EdifFile.elab_text text = EdifFile.Ok n -> EdifFileSpec.wf_file n.
+Proof. exact EdifFileWf.elab_text_wf. Qed.
 Print Assumptions C15_edif_wf_or_error.
 
-Theorem C15_edif_wf_or_error_tokens : forall (toks : list str) (n : EdifFile.nvfile), EdifFile.elab_tokens toks = EdifFile.Ok n -> EdifFileSpec.wf_core n.
-Proof. exact EdifFileWf.elab_tokens_wf_core. Qed.
+Theorem C15_edif_wf_or_error_tokens : forall (toks : list str) (n : EdifFile.nvfile), EdifFile.elab_tokens toks = EdifFile.Ok n -> EdifFileSpec.wf_file n.
+Proof. exact EdifFileWf.elab_tokens_wf. Qed.
 Print Assumptions C15_edif_wf_or_error_tokens.
 
 Theorem C15_edif_wf_file : forall (d : EdifLex.sexp) (n : EdifFile.nvfile),
-  EdifFile.elab_file d = EdifFile.Ok n -> EdifFileSpec.all_referencedb n = true -> EdifFileSpec.wf_file n.
+  EdifFile.elab_file d = EdifFile.Ok n -> EdifFileSpec.wf_file n.
 Proof. exact EdifFileWf.elab_file_wf. Qed.
 Print Assumptions C15_edif_wf_file.
 
-Definition C15_bare_instance_text : str := s2l
-  "(edif n (edifVersion 2 0 0) (edifLevel 0) (keywordMap (keywordLevel 0))
+Theorem C15_edif_truncated_rejected : forall (toks : list str) (n : EdifFile.nvfile) (k : nat),
+  EdifFile.elab_tokens toks = EdifFile.Ok n -> k < length toks ->
+  exists e, EdifFile.elab_tokens (firstn k toks) = EdifFile.Err e.
+Proof. exact EdifFileWf.elab_tokens_truncated. Qed.
+Print Assumptions C15_edif_truncated_rejected.
+
+Theorem C15_edif_trailing_rejected : forall (toks : list str) (n : EdifFile.nvfile) (extra : list str),
+  EdifFile.elab_tokens toks = EdifFile.Ok n -> extra <> nil ->
+  exists e, EdifFile.elab_tokens (toks ++ extra) = EdifFile.Err e.
+Proof. exact EdifFileWf.elab_tokens_trailing. Qed.
+Print Assumptions C15_edif_trailing_rejected.
+
+Definition C15_edif_text (contents tail : string) : str := s2l
+  ("(edif n (edifVersion 2 0 0) (edifLevel 0) (keywordMap (keywordLevel 0))
     (library work (edifLevel 0) (technology (numberDefinition))
       (cell t (cellType GENERIC) (view netlist (viewType NETLIST) (interface (port x (direction INPUT)))
-        (contents (instance u1) (net x (joined (portRef x))))))))".
+        (contents " ++ contents ++ "(net x (joined (portRef x)))))))
+    (design t (cellRef t (libraryRef work" ++ tail).
 
-Example C15_edif_bare_instance_accepted :
-  exists n, EdifFile.elab_text C15_bare_instance_text = EdifFile.Ok n /\ EdifFileSpec.all_referencedb n = false.
-Proof. eexists. split; vm_compute; reflexivity. Qed.
+Definition C15_accepted (r : EdifFile.result EdifFile.nvfile) : bool := match r with EdifFile.Ok _ => true | EdifFile.Err _ => false end.
+
+(* the hypotheses of the two theorems above are satisfiable: a complete file is accepted ... *)
+Example C15_edif_complete_file_accepted : C15_accepted (EdifFile.elab_text (C15_edif_text "" "))))")) = true.
+Proof. vm_compute. reflexivity. Qed.
+
+(* ... the same file without its last two parentheses, with garbage in their place, or with a token after its
+   last parenthesis is refused (all three were accepted before the reader was repaired: finding K16) *)
+Example C15_edif_damaged_end_rejected :
+  EdifFile.elab_text (C15_edif_text "" "))") = EdifFile.Err EdifFile.FeEof /\
+  EdifFile.elab_text (C15_edif_text "" ")) garbage ( ( ""unterminated") = EdifFile.Err EdifFile.FeEof /\
+  EdifFile.elab_text (C15_edif_text "" ")))) garbage") = EdifFile.Err EdifFile.FeShape.
+Proof. repeat split; vm_compute; reflexivity. Qed.
+
+(* an instance without viewRef is refused (it was accepted and left without a reference: finding K14) *)
+Example C15_edif_bare_instance_rejected :
+  EdifFile.elab_text (C15_edif_text "(instance u1) " "))))") = EdifFile.Err EdifFile.FeShape.
+Proof. vm_compute. reflexivity. Qed.
 
 (* Runtime residue (not a theorem, see DESIGN.md): that the PYTHON recursive-descent loops
    terminate on every corrupted token stream is checked on the implementation only, by the
